@@ -373,7 +373,12 @@ func (s *Sim) onEvent(kind int, a uint64, nav *world.Nav) {
 			panic(&Abort{Why: "nav-panic"})
 		}
 	}
-	if e.Steps > e.Budget && kind != evOpBegin && kind != evOpEnd {
+	// The step budget is enforced only at navigator calls, function entries and
+	// loader events - never at a lock, pool or atomic event: those are announced
+	// around the real operation (a release has already happened when it is
+	// announced), and an abort raised there would leave the lock model out of
+	// step with the real locks and turn into a false deadlock verdict later.
+	if e.Steps > e.Budget && (nav != nil || kind == vs.EvEnter || kind == evLoadIn || kind == evLoadMid) {
 		panic(&Abort{Why: "budget"})
 	}
 	if t == nil {
